@@ -521,6 +521,7 @@ func (cw *chargeWorld) prepare() error {
 		si := round % 2
 		cw.factory.GasScheduleChange(cw.scheds[si].m)
 		for i, sc := range cw.scens {
+			beat()
 			c, _, out, err := cw.exec(sc, ref)
 			if err != nil {
 				return fmt.Errorf("reference run of %s under %s: %v", sc.name, cw.scheds[si].name, err)
@@ -698,6 +699,7 @@ func (r *run) sectionCharge() error {
 		for i := 0; i < flips && atomic.LoadInt32(&stop) == 0; i++ {
 			cw.factory.GasScheduleChange(cw.scheds[(i+1)%2].m)
 			atomic.AddInt64(&flipsDone, 1)
+			beat()
 			// mostly back to back; now and then leave the executors alone for a moment
 			if rng.Intn(16) == 0 {
 				for n := rng.Intn(40); n > 0; n-- {
